@@ -18,7 +18,7 @@ one() {
   if [ "$code" = "1" ]; then echo "CAUGHT  $id $tier $p class=$class"; else echo "MISSED  $id $tier $p exit=$code"; fi
 }
 if [ "${4:-}" = "--one" ]; then one "$5" "$tier"; exit 0; fi
-ls mutants/*.patch seeded/*/patch.diff | xargs -P "$jobs" -I{} sh "$0" "$tier" "$VERIF_SEED" "$jobs" --one {} > mutants_par.out 2>&1
+ls ${MUTANT_GLOB:-mutants/*.patch seeded/*/patch.diff} | xargs -P "$jobs" -I{} sh "$0" "$tier" "$VERIF_SEED" "$jobs" --one {} > mutants_par.out 2>&1
 cat mutants_par.out
 echo "SUMMARY tier=$tier seed=$VERIF_SEED total=$(grep -c '^CAUGHT\|^MISSED' mutants_par.out) missed=$(grep -c '^MISSED' mutants_par.out)"
 ! grep -q '^MISSED' mutants_par.out
